@@ -656,6 +656,148 @@ theorem walk_inv (bt : List Builtin) (F : Facts) (v2 : Bool) :
       simp only [hn] at hw
       exact fill_inv ih u _ g _ _ (by decide) _ u' o h hw
 
+/-! ## where the result of a walk is registered -/
+
+/-- `fill` returns the object registered under the name it was given -/
+theorem fill_idx {bt : List Builtin} {w : U → Nat → Option Name → Option (U × Nat)} (hw : WalkOK bt w)
+    (u : U) (n : Name) (g : Nat) (gn : GNode) (K : Kind)
+    (kids : List (Nat × Option Name × Setter)) (u' : U) (o : Nat) (h : Inv bt u)
+    (hf : fill bt w u n g gn K kids = some (u', o)) : AL.lookup n u'.types = some o := by
+  unfold fill at hf
+  obtain ⟨h1, g1, l1⟩ := type_inv (bt := bt) n h
+  by_cases hk : (U.type bt u n).1.kind (U.type bt u n).2 ≠ .unknown
+  · simp only [hk, ne_eq, not_false_eq_true, if_true, Option.some.injEq] at hf
+    have e1 : (U.type bt u n).1 = u' := by rw [hf]
+    have e2 : (U.type bt u n).2 = o := by rw [hf]
+    rw [e1, e2] at l1; exact l1
+  · simp only [hk, if_false] at hf
+    have hunk : (U.type bt u n).1.kind (U.type bt u n).2 = .unknown := by simpa using hk
+    obtain ⟨h2, g2⟩ := modify_inv (o := (U.type bt u n).2)
+      (mark_goodUpdate _ _ (fun ob => markFields gn { ob with kind := K, src := some g }) hunk
+        (fun ob => ⟨(markFields_meta gn _).1, (markFields_meta gn _).2.2⟩)) h1
+    cases hr : runKids w (U.type bt u n).2 ((U.type bt u n).1.modify (U.type bt u n).2 (fun ob => markFields gn { ob with kind := K, src := some g })) kids with
+    | none => simp [hr] at hf
+    | some u3 =>
+      simp only [hr, Option.some.injEq, Prod.mk.injEq] at hf
+      obtain ⟨rfl, rfl⟩ := hf
+      obtain ⟨_, g3⟩ := runKids_inv hw _ kids _ _ h2 hr
+      exact g3.idx _ _ (g2.idx _ _ l1)
+
+theorem addMethods_snd {w : U → Nat → Option Name → Option (U × Nat)} (v2 : Bool) (u : U) (o : Nat) (ms : List GMethod)
+    (u' : U) (o' : Nat) (hf : addMethods v2 w u o ms = some (u', o')) : o' = o := by
+  unfold addMethods at hf
+  split at hf
+  · cases hr : runKids w o u (methodKids v2 ms) with
+    | none => simp [hr] at hf
+    | some u3 => simp only [hr, Option.some.injEq, Prod.mk.injEq] at hf; exact hf.2.symm
+  · simp only [Option.some.injEq, Prod.mk.injEq] at hf; exact hf.2.symm
+
+/-- **declared_type_is_registered**: walking a non-generic named type (whose underlying node is an unnamed type
+node, as go/types guarantees) returns the object registered under the type's own name -/
+theorem walk_named_idx (bt : List Builtin) (F : Facts) (v2 : Bool) (fuel : Nat) (u : U) (g : Nat) (un : Option Name)
+    (und : Nat) (ms : List GMethod) (origUnd : Nat) (hn : F.node g = .named und ms [] origUnd)
+    (hund : isAliasUnder (F.node und) = true ∨ ∃ K kids, shape v2 (F.node und) = some (K, kids))
+    (horig : ∃ K kids, shape v2 (F.node origUnd) = some (K, kids))
+    (u' : U) (o : Nat) (h : Inv bt u) (hw : walk bt F v2 (fuel + 1) u g un = some (u', o)) :
+    AL.lookup (nameOf v2 (F.str g)) u'.types = some o := by
+  have ih := walk_inv bt F v2 fuel
+  simp only [walk, hn] at hw
+  -- a walk of an unnamed type node under a given name returns the object registered under that name
+  have shapeWalk : ∀ (c : Nat) (n : Name) (u1 u2 : U) (o2 : Nat), (∃ K kids, shape v2 (F.node c) = some (K, kids)) →
+      Inv bt u1 → walk bt F v2 fuel u1 c (some n) = some (u2, o2) → AL.lookup n u2.types = some o2 := by
+    intro c n u1 u2 o2 hs h1 hw2
+    obtain ⟨K, kids, hs⟩ := hs
+    cases fuel with
+    | zero => simp [walk] at hw2
+    | succ f =>
+      have ihf := walk_inv bt F v2 f
+      simp only [walk] at hw2
+      cases hc : F.node c with
+      | alias _ => simp [hc, shape] at hs
+      | basic _ => simp [hc, shape] at hs
+      | tparam _ => simp [hc, shape] at hs
+      | named _ _ _ _ => simp [hc, shape] at hs
+      | _ =>
+        simp only [hc] at hw2 hs
+        simp only [hs, Option.getD_some] at hw2
+        exact fill_idx ihf u1 n c _ K kids u2 o2 h1 hw2
+  by_cases ha : isAliasUnder (F.node und) = true
+  · simp only [ha, if_true] at hw
+    obtain ⟨h1, g1, l1⟩ := type_inv (bt := bt) (nameOf v2 (F.str g)) h
+    by_cases hk : (U.type bt u (nameOf v2 (F.str g))).1.kind (U.type bt u (nameOf v2 (F.str g))).2 ≠ .unknown
+    · simp only [hk, ne_eq, not_false_eq_true, if_true, Option.some.injEq] at hw
+      have e1 : (U.type bt u (nameOf v2 (F.str g))).1 = u' := by rw [hw]
+      have e2 : (U.type bt u (nameOf v2 (F.str g))).2 = o := by rw [hw]
+      rw [e1, e2] at l1; exact l1
+    · simp only [hk, if_false] at hw
+      have hunk : (U.type bt u (nameOf v2 (F.str g))).1.kind (U.type bt u (nameOf v2 (F.str g))).2 = .unknown := by simpa using hk
+      obtain ⟨h2, g2⟩ := modify_inv (o := (U.type bt u (nameOf v2 (F.str g))).2)
+        (mark_goodUpdate _ _ (fun ob => { ob with kind := .alias, src := some g }) hunk (fun ob => ⟨rfl, rfl⟩)) h1
+      cases hr : runKids (fun u c un => walk bt F v2 fuel u c un) (U.type bt u (nameOf v2 (F.str g))).2
+          ((U.type bt u (nameOf v2 (F.str g))).1.modify (U.type bt u (nameOf v2 (F.str g))).2 (fun ob => { ob with kind := .alias, src := some g }))
+          [(und, none, .under)] with
+      | none => simp [hr] at hw
+      | some u3 =>
+        simp only [hr] at hw
+        obtain ⟨h3, g3⟩ := runKids_inv ih _ _ _ _ h2 hr
+        have hoe := addMethods_snd v2 u3 _ ms u' o hw
+        obtain ⟨ob, hob, _⟩ := h1.nameOK _ _ l1
+        have hknown : Known ((U.type bt u (nameOf v2 (F.str g))).1.modify (U.type bt u (nameOf v2 (F.str g))).2 (fun ob => { ob with kind := .alias, src := some g }))
+            (U.type bt u (nameOf v2 (F.str g))).2 := ⟨_, modify_get_eq hob, by simp⟩
+        have p := addMethods_inv ih v2 u3 u3 _ ms u' o ⟨h3, Grows.refl _, hknown.mono g3, Reg.mono (.inl ⟨_, l1⟩) (g2.trans g3)⟩ hw
+        rw [hoe]
+        exact p.grows.idx _ _ (g3.idx _ _ (g2.idx _ _ l1))
+  · simp only [ha, Bool.false_eq_true, if_false] at hw
+    have hshape : ∃ K kids, shape v2 (F.node und) = some (K, kids) := by
+      rcases hund with h | h
+      · exact absurd h ha
+      · exact h
+    by_cases hs : (v2 && isStructOrIface (F.node und)) = true
+    · simp only [hs, if_true, List.map_nil, runKids, List.isEmpty_nil] at hw
+      by_cases hk : (U.type bt u (nameOf v2 (F.str g))).1.kind (U.type bt u (nameOf v2 (F.str g))).2 ≠ .unknown
+      · simp only [hk, ne_eq, not_false_eq_true, if_true, Option.some.injEq] at hw
+        obtain ⟨_, _, l1⟩ := type_inv (bt := bt) (nameOf v2 (F.str g)) h
+        have e1 : (U.type bt u (nameOf v2 (F.str g))).1 = u' := by rw [hw]
+        have e2 : (U.type bt u (nameOf v2 (F.str g))).2 = o := by rw [hw]
+        rw [e1, e2] at l1; exact l1
+      · simp only [hk, if_false] at hw
+        obtain ⟨h2, g2, _⟩ := type_inv (bt := bt) (nameOf v2 (F.str g)) h
+        cases hw2 : walk bt F v2 fuel (U.type bt u (nameOf v2 (F.str g))).1 origUnd (some (nameOf v2 (F.str g))) with
+        | none => simp [hw2] at hw
+        | some p =>
+          obtain ⟨u3, o3⟩ := p
+          simp only [hw2] at hw
+          have l3 := shapeWalk origUnd _ _ u3 o3 horig h2 hw2
+          have p3 := ih _ _ _ _ _ h2 hw2
+          obtain ⟨h4, g4⟩ := modify_inv (o := o3) (f := fun ob => { ob with tparams := [] })
+            (fun ob _ => ⟨rfl, fun _ => rfl, fun r hr => .inl (by
+              simp only [refs, List.map_nil, List.append_nil, List.mem_append] at hr ⊢
+              exact .inl hr)⟩) p3.inv
+          have hoe := addMethods_snd v2 _ o3 ms u' o hw
+          have p5 := addMethods_inv ih v2 _ _ o3 ms u' o ⟨h4, Grows.refl _, p3.good.mono g4⟩ hw
+          rw [hoe]
+          exact p5.grows.idx _ _ (g4.idx _ _ l3)
+    · simp only [hs, Bool.false_eq_true, if_false] at hw
+      by_cases hk : (U.type bt u (nameOf v2 (F.str g))).1.kind (U.type bt u (nameOf v2 (F.str g))).2 ≠ .unknown
+      · simp only [hk, ne_eq, not_false_eq_true, if_true, Option.some.injEq] at hw
+        obtain ⟨_, _, l1⟩ := type_inv (bt := bt) (nameOf v2 (F.str g)) h
+        have e1 : (U.type bt u (nameOf v2 (F.str g))).1 = u' := by rw [hw]
+        have e2 : (U.type bt u (nameOf v2 (F.str g))).2 = o := by rw [hw]
+        rw [e1, e2] at l1; exact l1
+      · simp only [hk, if_false] at hw
+        obtain ⟨h2, g2, _⟩ := type_inv (bt := bt) (nameOf v2 (F.str g)) h
+        cases hw2 : walk bt F v2 fuel (U.type bt u (nameOf v2 (F.str g))).1 und (some (nameOf v2 (F.str g))) with
+        | none => simp [hw2] at hw
+        | some p =>
+          obtain ⟨u3, o3⟩ := p
+          simp only [hw2] at hw
+          have l3 := shapeWalk und _ _ u3 o3 hshape h2 hw2
+          have p3 := ih _ _ _ _ _ h2 hw2
+          have hoe := addMethods_snd v2 u3 o3 ms u' o hw
+          have p5 := addMethods_inv ih v2 u3 u3 o3 ms u' o ⟨p3.inv, Grows.refl _, p3.good⟩ hw
+          rw [hoe]
+          exact p5.grows.idx _ _ l3
+
 /-! ## declarations, package scans -/
 
 def declIdx (u : U) : Decl → List (Name × Nat)
